@@ -256,6 +256,20 @@ theorem gatherAll_ff (hff : FF o) (sem : Sem) (m : Manifest) : ∀ (ecos : List 
     simp only at has; subst has; simp only []
     exact ⟨⟨_, (by first | rfl | trivial)⟩, s1.trans s2⟩
 
+theorem coalCalls_ff (hff : FF o) (sem : Sem) : ∀ (ecos : List Eco) (w : W), Clean w.e →
+    (coalCalls sem o ecos w).2 = none ∧ FFStep w (coalCalls sem o ecos w).1
+  | [], w, hc => by simp only [coalCalls]; exact ⟨(by first | rfl | trivial), FFStep.refl hc⟩
+  | eco :: ecos, w, hc => by
+    simp only [coalCalls]
+    split
+    · exact coalCalls_ff hff sem ecos w hc
+    · obtain ⟨h1, s1⟩ := readCall_ff hff 'C' w hc
+      generalize readCall o 'C' w = r1 at h1 s1 ⊢
+      obtain ⟨w1, e1⟩ := r1
+      simp only at h1; subst h1; simp only []
+      obtain ⟨h2, s2⟩ := coalCalls_ff hff sem ecos w1 s1.clean
+      exact ⟨h2, s1.trans s2⟩
+
 /-- Under a fault-free oracle every state function run from a loop head
     returns no error and leaves the environment clean; after fetchLayers the
     layers that still need a scanner are fetched. -/
@@ -293,7 +307,12 @@ theorem stateFn_ff (hff : FF o) (w : W) (c : Ctl) (hc : Clean w.e) (hi : Inv sem
     generalize gatherAll sem o m cfg w = res at ha h2 ⊢
     obtain ⟨w1, r1⟩ := res
     simp only at ha; subst ha
-    exact ⟨(by first | rfl | trivial), h2.clean, fun hh => by cases hh⟩
+    simp only []
+    obtain ⟨h3, s3⟩ := coalCalls_ff hff sem cfg w1 h2.clean
+    generalize coalCalls sem o cfg w1 = res2 at h3 s3 ⊢
+    obtain ⟨w2, r2⟩ := res2
+    simp only at h3; subst h3
+    exact ⟨(by first | rfl | trivial), s3.clean, fun hh => by cases hh⟩
   · rw [hcur]; simp only [stateFn]
     unfold indexManifest
     obtain ⟨e, hcall, hcl, _⟩ := call_ff hff w hc 'X'
